@@ -2,7 +2,11 @@
 
 package slip
 
-import "strings"
+import (
+	"bytes"
+	"regexp"
+	"strings"
+)
 
 // SymbolSymbol is the symbol with a value of "symbol".
 const SymbolSymbol = Symbol("symbol")
@@ -37,7 +41,37 @@ func (obj Symbol) Readably(b []byte, p *Printer) []byte {
 			return append(b, '|')
 		}
 	}
+	if numberToken(string(obj), 10) || (p.Base != 10 && numberToken(string(obj), int(p.Base))) {
+		// Without the bars the reader would take the name for a number.
+		b = append(b, '|')
+		b = append(b, p.caseName(string(obj))...)
+		return append(b, '|')
+	}
 	return append(b, p.caseName(string(obj))...)
+}
+
+// numberToken returns true if the reader would take the token for an integer,
+// ratio, or float when reading in the specified base.
+func numberToken(token string, base int) bool {
+	if base < 2 || 36 < base {
+		return false
+	}
+	buf := bytes.ToLower([]byte(token))
+	for _, rx := range []*regexp.Regexp{
+		intRxs[base],
+		ratioRxs[base],
+		decimalRegex,
+		eFloatRegex,
+		shortFloatRegex,
+		singleFloatRegex,
+		doubleFloatRegex,
+		longFloatRegex,
+	} {
+		if rx.Match(buf) {
+			return true
+		}
+	}
+	return false
 }
 
 // Simplify the Object into a string.
